@@ -29,6 +29,11 @@
   `fpStepN_random_expected_best_response` (guard `BrsGuard`), `fp_empirical_frequency` (decreasing
   gain: beliefs are running averages along every history), `logitChoice_eq_iff` (inverse CDF:
   action `a` iff `cdf[a-1] ≤ u·cdf[-1] < cdf[a]`), `stepK_l1` (ℓ¹ distance 0 or 2 per period).
+  Growth round 2 (model growth): the entry points `LocalInteraction.play` / `time_series` with their own
+  argument handling (`playSchedule`, `tsArgAt`, `tsPeriod`, `tsSchedule`, `liRun`, `liPlayE`, `liRows`,
+  `liTimeSeriesE`; driver op `lientry`): `liPlayE_error_iff`, `playSchedule_simultaneous`,
+  `playSchedule_asynchronous_seq`, `liPlayE_range`, `tsSchedule_ok_iff`, `liTimeSeriesE_rows`,
+  `list_entry_sequential_vs_simultaneous`.
 -/
 import QEModel.C20
 import QEProofs.Lemmas.C20Brd
@@ -37,6 +42,7 @@ import QEProofs.Lemmas.C20Fp
 import QEProofs.Lemmas.C20FpN
 import QEProofs.Lemmas.C20Exp
 import QEProofs.Lemmas.C20Li
+import QEProofs.Lemmas.C20Entry
 import QEProofs.Lemmas.C20Logit
 import QEProofs.Lemmas.C20Search
 import Mathlib.Data.List.Forall2
@@ -886,6 +892,134 @@ theorem liStates_range (G : Game K) (adj : List (List K)) (N : Nat) (hn : 0 < G.
     · obtain ⟨h1, h2⟩ := liPlay_range G adj revs s.1 s.2 hn hr
       exact ih _ (by rw [h1]; exact hl) h2 t ht
 
+/-! ## LocalInteraction: the public entry points with their own argument handling -/
+
+omit [IsStrictOrderedRing K] in
+/-- **`play` raises exactly for an invalid `revision`, and then a `ValueError`**; in particular no
+    `player_ind_seq` form, `num_reps` or drawn sequence makes it fail. -/
+theorem liPlayE_error_iff (G : Game K) (adj : List (List K)) (N numReps : Nat) (rev : Revision)
+    (arg : SeqArg) (drawn : List Nat) (s : List Nat × List Nat) (e : Err) :
+    liPlayE G adj N numReps rev arg drawn s = .error e ↔ rev = .other ∧ e = .valueError := by
+  cases rev <;> cases arg <;> simp [liPlayE, playSchedule, eq_comm]
+
+omit [CommRing K] [LinearOrder K] [IsStrictOrderedRing K] in
+/-- with `revision='simultaneous'` the `player_ind_seq` argument and the drawn sequence are ignored:
+    `num_reps` periods in which everybody revises -/
+theorem playSchedule_simultaneous (N numReps : Nat) (arg : SeqArg) (drawn : List Nat) :
+    playSchedule N numReps .simultaneous arg drawn = .ok (List.replicate numReps (List.range N)) := rfl
+
+omit [CommRing K] [LinearOrder K] [IsStrictOrderedRing K] in
+/-- with `revision='asynchronous'` and a given sequence, `num_reps` is ignored: one period per entry -/
+theorem playSchedule_asynchronous_seq (N numReps : Nat) (es : List Entry) (drawn : List Nat) :
+    playSchedule N numReps .asynchronous (.seq es) drawn = .ok (es.map entrySet) := rfl
+
+/-- **Every successful `play` call keeps the profile valid**, whatever the revision mode, the form of
+    `player_ind_seq`, `num_reps` and the drawn players: same number of players, every action inside
+    the action set. -/
+theorem liPlayE_range (G : Game K) (adj : List (List K)) (N numReps : Nat) (rev : Revision)
+    (arg : SeqArg) (drawn : List Nat) (s r : List Nat × List Nat) (hn : 0 < G.A.length)
+    (hs : ∀ v ∈ s.1, v < G.A.length) (h : liPlayE G adj N numReps rev arg drawn s = .ok r) :
+    r.1.length = s.1.length ∧ ∀ v ∈ r.1, v < G.A.length := by
+  unfold liPlayE at h
+  cases hsch : playSchedule N numReps rev arg drawn with
+  | error e => rw [hsch] at h; cases h
+  | ok sch =>
+    rw [hsch] at h
+    cases h
+    exact liRun_range G adj hn sch s hs
+
+omit [CommRing K] [LinearOrder K] [IsStrictOrderedRing K] in
+/-- **When `time_series` succeeds and when it raises** (iff): it returns iff `revision` is valid,
+    `ts_length ≥ 1`, and — for asynchronous revision — `player_ind_seq` is omitted, or a sequence with
+    at least `ts_length − 1` entries, or (degenerate) an integer with `ts_length ≤ 1`. -/
+theorem tsSchedule_ok_iff (N T : Nat) (rev : Revision) (arg : SeqArg) (drawn : List Nat) :
+    (∃ p, tsSchedule N T rev arg drawn = .ok p) ↔
+      rev ≠ .other ∧ T ≠ 0 ∧
+        (rev = .asynchronous → match arg with
+          | .none => True
+          | .int _ => T ≤ 1
+          | .seq es => T - 1 ≤ es.length) := by
+  unfold tsSchedule
+  by_cases hro : rev = .other
+  · simp [hro]
+  by_cases hT : T = 0
+  · simp [hro, hT]
+  simp only [hro, hT, if_false, ne_eq, not_false_eq_true, true_and]
+  cases rev with
+  | other => exact absurd rfl hro
+  | simultaneous =>
+    simp only [reduceCtorEq, false_implies, iff_true]
+    apply mapM_except_ok_of_all
+    intro t _
+    exact ⟨_, rfl⟩
+  | asynchronous =>
+    simp only [true_implies]
+    cases arg with
+    | none =>
+      simp only [iff_true]
+      apply mapM_except_ok_of_all
+      intro t _
+      exact ⟨_, rfl⟩
+    | int p =>
+      constructor
+      · rintro ⟨r, hr⟩
+        by_contra hc
+        obtain ⟨e, he⟩ := mapM_except_error (tsPeriod N .asynchronous (.int p) drawn) (List.range (T - 1))
+          ⟨0, List.mem_range.2 (by omega), .typeError, rfl⟩
+        rw [he] at hr; cases hr
+      · intro h
+        have : T - 1 = 0 := by omega
+        rw [this]
+        exact ⟨[], rfl⟩
+    | seq es =>
+      constructor
+      · rintro ⟨r, hr⟩
+        by_contra hc
+        obtain ⟨e, he⟩ := mapM_except_error (tsPeriod N .asynchronous (.seq es) drawn) (List.range (T - 1))
+          ⟨es.length, List.mem_range.2 (by omega), .indexError, by simp [tsPeriod, tsArgAt]⟩
+        rw [he] at hr; cases hr
+      · intro h
+        apply mapM_except_ok_of_all
+        intro t ht
+        have htl : t < es.length := by have := List.mem_range.1 ht; omega
+        simp only [tsPeriod, tsArgAt, List.getElem?_eq_getElem htl]
+        cases es[t] with
+        | one p => exact ⟨_, rfl⟩
+        | many ps => exact ⟨_, rfl⟩
+
+/-- **What a successful `time_series` returns**: exactly `ts_length` rows, the first being the initial
+    profile, every row with one in-range action per player — for every revision mode and every form of
+    `player_ind_seq`. -/
+theorem liTimeSeriesE_rows (G : Game K) (adj : List (List K)) (N T : Nat) (rev : Revision) (arg : SeqArg)
+    (drawn : List Nat) (s : List Nat × List Nat) (rows : List (List Nat × List Nat)) (hn : 0 < G.A.length)
+    (hs : ∀ v ∈ s.1, v < G.A.length) (h : liTimeSeriesE G adj N T rev arg drawn s = .ok rows) :
+    rows.length = T ∧ rows.head? = some s ∧
+      ∀ t ∈ rows, t.1.length = s.1.length ∧ ∀ v ∈ t.1, v < G.A.length := by
+  unfold liTimeSeriesE at h
+  cases hsch : tsSchedule N T rev arg drawn with
+  | error e => rw [hsch] at h; cases h
+  | ok periods =>
+    rw [hsch] at h
+    cases h
+    have hT : T ≠ 0 := ((tsSchedule_ok_iff N T rev arg drawn).1 ⟨periods, hsch⟩).2.1
+    have hro : rev ≠ .other := ((tsSchedule_ok_iff N T rev arg drawn).1 ⟨periods, hsch⟩).1
+    have hlen : periods.length = T - 1 := by
+      unfold tsSchedule at hsch
+      rw [if_neg hro, if_neg hT] at hsch
+      have := (mapM_except_ok _ _ _ hsch).1
+      simpa using this
+    obtain ⟨h1, h2, h3⟩ := liRows_spec G adj hn periods s hs
+    exact ⟨by rw [h1, hlen]; omega, h2, h3⟩
+
+omit [CommRing K] [LinearOrder K] [IsStrictOrderedRing K] in
+/-- **A list entry `[i, j]` means different things at the two entry points** (what the code does;
+    the documentation does not settle it): through `time_series` the two players revise one after the
+    other inside the period, through `play(player_ind_seq=[[i, j]])` they revise simultaneously. -/
+theorem list_entry_sequential_vs_simultaneous (N numReps i j : Nat) (drawn : List Nat) :
+    tsSchedule N 2 .asynchronous (.seq [.many [i, j]]) drawn = .ok [[[i], [j]]] ∧
+    playSchedule N numReps .asynchronous (.seq [.many [i, j]]) drawn = .ok [[i, j]] := by
+  constructor <;> rfl
+
 /-! ## LogitDynamics -/
 
 omit [IsStrictOrderedRing K] in
@@ -1267,6 +1401,22 @@ example : LiGuard gR [[0, 0, 1], [1, 0, 0], [0, 1, 0]] [0, 1, 1] [0, 1, 2] [1, 0
   simp only [LiGuard]; decide +kernel
 example : liPlay gR [[0, 0, 1], [1, 0, 0], [0, 1, 0]] [0, 1, 2] [0, 1, 1] [1, 0, 1] = ([1, 0, 1], []) := by
   decide +kernel
+
+/-- entry points on the 3-cycle: asynchronous `play` over the entries 0, [1, 2]; an invalid revision;
+    `time_series` with a sequence that is too short (`IndexError`) and with an integer (`TypeError`) -/
+def excErr {β : Type} : Except Err β → Option Err
+  | .error e => some e
+  | .ok _ => none
+example : (liPlayE fG [[0, 0, 1], [1, 0, 0], [0, 1, 0]] 3 7 .asynchronous (.seq [.one 0, .many [1, 2]]) []
+    ([0, 1, 1], [])).toOption.map Prod.fst = some [1, 1, 1] := by decide +kernel
+example : excErr (liPlayE fG [[0, 0, 1], [1, 0, 0], [0, 1, 0]] 3 1 .other .none [] ([0, 1, 1], [])) = some .valueError := by
+  decide +kernel
+example : excErr (liTimeSeriesE fG [[0, 0, 1], [1, 0, 0], [0, 1, 0]] 3 3 .asynchronous (.seq [.one 0]) [] ([0, 1, 1], []))
+    = some .indexError := by decide +kernel
+example : excErr (liTimeSeriesE fG [[0, 0, 1], [1, 0, 0], [0, 1, 0]] 3 2 .asynchronous (.int 1) [] ([0, 1, 1], []))
+    = some .typeError := by decide +kernel
+example : (liTimeSeriesE fG [[0, 0, 1], [1, 0, 0], [0, 1, 0]] 3 3 .simultaneous (.int 5) [] ([0, 1, 1], [])).toOption.map
+    (fun rows => rows.map Prod.fst) = some [[0, 1, 1], [1, 0, 1], [1, 1, 0]] := by decide +kernel
 
 /-- logit choice on the cdf row (1/2, 3/2): `u = 1/3` gives `u·cdf[-1] = 1/2`, hence action 1 -/
 example : logitStep [2, 2] [[[1/2, 3/2], [1, 2]], [[1, 2], [1, 3/2]]] (0, (1/3 : Rat)) [0, 0] = [1, 0] := by
